@@ -166,7 +166,7 @@ var intrinsicNames = map[string]bool{
 	"vRequires": true, "vEnsures": true, "vAssert": true, "vAssume": true, "vForall": true, "vExists": true,
 	"vSameRegion": true, "vOffset": true, "vModifiesBytes": true, "vModifiesAll": true, "vFresh": true,
 	"vCanary": true, "vAllocs": true, "vUnreachable": true, "vModifiesObj": true, "vNoAlias": true, "vOpaque": true,
-	"vModifiesNothing": true, "vBorrowed": true, "vIsFreshRegion": true, "vModifiesHeap": true, "vStrictLen": true, "vModifiesMems": true, "vReveal": true, "vModifiesField": true,
+	"vModifiesNothing": true, "vBorrowed": true, "vIsFreshRegion": true, "vModifiesHeap": true, "vStrictLen": true, "vAtEntry": true, "vModifiesMems": true, "vReveal": true, "vModifiesField": true,
 }
 
 func (e *Engine) callStatic(fr *Frame, st *State, callee *ssa.Function, args []Value, site ssa.Instruction) []Value {
@@ -480,6 +480,21 @@ func (e *Engine) intrinsic(fr *Frame, st *State, callee *ssa.Function, args []Va
 		pats := e.stringSliceConsts(st, args[0])
 		h.modifies = append(h.modifies, modClause{kind: "mems", pats: pats})
 		return nil
+	case "vAtEntry":
+		ev := e.loopEval
+		if ev == nil {
+			unsup("vAtEntry outside a loop invariant")
+		}
+		ord := siteOrdinal(fr.fn, site, "vAtEntry")
+		if ev.entry {
+			ev.head.entryVals[ord] = args[0].term()
+			return []Value{args[0]}
+		}
+		v, ok := ev.head.entryVals[ord]
+		if !ok {
+			unsup("vAtEntry value not recorded at loop entry")
+		}
+		return []Value{scalar(v)}
 	case "vReveal":
 		if h != nil && h.mode == modeVerify {
 			e.reveal = true
@@ -982,6 +997,10 @@ func (e *Engine) frameByWrites(fr *Frame, st *State, name string, fin, ent *Mem,
 			case MHavocFresh:
 			case MHavocRegions:
 				for _, r := range m.regions {
+					if isObj {
+						obs = append(obs, ob{cond, allowedRef(r)})
+						continue
+					}
 					n := int64(-1)
 					if r.op == "concat" && r.args[0].IsConst() {
 						if ln, ok2 := fieldLens[r.args[0].val.Uint64()-0xE0000000]; ok2 {
